@@ -15,6 +15,7 @@ CONSTANTS
   MaxAdv = 1
   MaxFork = 2
   UseScan = TRUE
+  UseAccounts2 = FALSE
   UseSelf = FALSE
   UseDiverge = FALSE
   UseAdv = FALSE
